@@ -294,6 +294,9 @@ impl Sm2PrivateKey {
             true => 33,
             false => 65,
         };
+        if ciphertext.len() <= c1_end_index + 32 {
+            return Err(Sm2Error::InvalidFieldLen);
+        }
         let c1_bytes = &ciphertext[0..c1_end_index];
         let len = ciphertext.len();
         let c2_bytes = match model {
